@@ -12,6 +12,14 @@ From Coq Require Import List ZArith Bool Arith.
 Import ListNotations.
 From DD Require Import Lfu.LfuModel.
 
+(* generic in the content type [val], like the model *)
+Set Implicit Arguments.
+Set Maximal Implicit Insertion.
+Section Gen.
+Variable val : Type.
+Local Notation bucket := (bucket val).
+Local Notation op := (op val).
+
 Record entry := mkE { ekey : key; evalue : val; euses : nat }.
 Record spec := mkS { scap : nat; entries : list entry }.
 
@@ -80,3 +88,6 @@ Fixpoint bucket_items (f : nat) (bs : list bucket) : list (key * val) :=
   | [] => []
   | b :: r => if Nat.eqb (freq b) f then items b else bucket_items f r
   end.
+
+End Gen.
+Arguments sempty {val} c.
